@@ -48,6 +48,14 @@ func (o *oracle) fail(class, what string) {
 	o.fails = append(o.fails, core.Failure{Class: class, What: what})
 }
 
+// oldest: the key of the oldest reference thread t remembers
+func (o *oracle) oldest(t int) (int, bool) {
+	if len(o.held[t]) == 0 {
+		return 0, false
+	}
+	return o.held[t][0].key, true
+}
+
 func (o *oracle) holds(t, key int) bool {
 	for _, h := range o.held[t] {
 		if h.key == key {
@@ -136,7 +144,20 @@ func (o *oracle) step(t int, r stepResult, obs []refObs) {
 		return
 	}
 	key := r.op.key
+	if r.op.kind == opClose {
+		key = r.ckey
+	}
 	ret := r.m.r
+	if r.op.kind == opOpen && r.opDone && o.tainted == "" {
+		// the client glue around LoadOrNew: (writer, isNew, err)
+		switch {
+		case ret.err && (ret.v != nil || ret.isNew):
+			o.fail("client-open-result", fmt.Sprintf("config %d: openWriter(%d) returned an error together with a writer or isNew", t, key))
+		case !ret.err && ret.isNew != (r.tok[0] == 'C'):
+			o.fail("client-open-result", fmt.Sprintf("config %d: openWriter(%d) reported isNew=%v but %s", t, key, ret.isNew,
+				map[bool]string{true: "it opened the writer itself", false: "the writer was already open"}[r.tok[0] == 'C']))
+		}
+	}
 	if len(r.tok) >= 2 && r.tok[1] >= 'a' && r.tok[1] <= 'z' {
 		o.tags["ev:"+r.tok[:2]] = true
 	} else {
@@ -183,7 +204,7 @@ func (o *oracle) step(t int, r stepResult, obs []refObs) {
 		o.deleteStarted(t, key, r.tok)
 	case 'E', 'X':
 		if r.tok[0] == 'X' || r.tok == "En" {
-			if !ret.deleted && o.tainted == "" {
+			if !ret.deleted && o.tainted == "" && r.op.kind != opClose {
 				o.fail("delete-result", fmt.Sprintf("thread %d: Delete(%d) removed the entry but returned deleted=false", t, key))
 			}
 		}
